@@ -44,6 +44,10 @@ def analyse(prop: str, root: str, tier: str = "quick") -> Ctx:
 
 def run_check(prop: str, root: str, tier: str, selftest: bool = False) -> int:
     t0 = time.time()
+    from . import report as _report
+
+    if os.path.realpath(root) != os.path.realpath(os.environ.get("A816_REPO", "/repo")):
+        _report.EVIDENCE_DIR = os.environ.get("A816_EVIDENCE_DIR") or os.path.join(os.path.realpath(root), ".verif-evidence")
     mod = rule_module(prop)
     level = getattr(mod, "LEVEL", "other")
     seed = int(os.environ.get("VERIF_SEED", "0") or 0)
@@ -93,7 +97,7 @@ def run_check(prop: str, root: str, tier: str, selftest: bool = False) -> int:
         print(f"ANALYSIS-ERROR property={prop} {e}")
 
     write_evidence(
-        prop, tier, level if not ctx.errors else level, ctx, time.time() - t0, len(violations),
+        prop, tier, level if not (ctx.errors or ctx.failures) else "other", ctx, time.time() - t0, len(violations),
         getattr(mod, "EXPLANATION", ""), getattr(mod, "ASSUMPTIONS", []), getattr(mod, "TRUSTED", DEFAULT_TRUSTED),
         extra=extra, seed=seed,
     )
